@@ -695,6 +695,10 @@ func mFormat(e *Engine, a []Value) string {
 			parts = append(parts, e.valString(x))
 			n, ok := e.toNative(x)
 			if !ok {
+				// containers: []interface{}, map[string]interface{} and typed variants print like their native counterparts
+				n, ok = e.nativeOf(x)
+			}
+			if !ok {
 				allOK = false
 			}
 			native = append(native, n)
